@@ -163,7 +163,20 @@ def points (j : Json) : Except String Json := do
     | _, _ => throw "random_radial: not a radial grid"
   | _ => throw s!"unknown op {op}"
 
+/-- {"system":"polar|spherical|cylindrical","r","cp","sp","ct","st","z"} -> `_pos_to_cart` with the
+angles given as (cos, sin) pairs -/
+def tocart (j : Json) : Except String Json := do
+  let sys ← fldS j "system"
+  let r ← fldQ j "r"
+  let cp ← fldQ j "cp"
+  let sp ← fldQ j "sp"
+  match sys with
+  | "polar" => pure <| jQs (polarToCart r cp sp)
+  | "cylindrical" => pure <| jQs (cylToCart r cp sp (← fldQ j "z"))
+  | "spherical" => pure <| jQs (sphToCart r (← fldQ j "ct") (← fldQ j "st") cp sp)
+  | _ => throw s!"unknown coordinate system {sys}"
+
 def handlers : List (String × Handler) :=
-  [("c12.geometry", geometry), ("c12.cuboid", cuboid), ("c12.integrate", integrateH),
+  [("c12.geometry", geometry), ("c12.tocart", tocart), ("c12.cuboid", cuboid), ("c12.integrate", integrateH),
    ("c12.project", projectH), ("c12.points", points)]
 end PdeVerif.Drv.C12
